@@ -5,10 +5,12 @@ pub trait Suite {
 }
 
 pub mod codec;
+pub mod indexfile;
 
 pub fn make(name: &str) -> Option<Box<dyn Suite>> {
     match name {
         "codec" => Some(Box::new(codec::Codec::new())),
+        "indexfile" => Some(Box::new(indexfile::IndexFile::new())),
         _ => None,
     }
 }
